@@ -196,6 +196,11 @@ Proof. reflexivity. Qed.
 Lemma comb_cons m mr (dm : Z) dr : combine (map cm (m :: mr)) (dm :: dr) = (cm m, dm) :: combine (map cm mr) dr.
 Proof. reflexivity. Qed.
 
+(** the reads / writes of the header of a compressed level, in whatever order the source does them *)
+Ltac header_steps :=
+  repeat (first [ rewrite r_getitem_mid | rewrite r_setitem_mid | rewrite r_getitem_2_0 | rewrite r_getitem_2_1
+                | rewrite r_setitem_2_0 | rewrite r_setitem_2_1 | rewrite r_getitem_last ]; cbn [rbind]).
+
 Lemma dfs_ok : forall mr m dr dm fuel mp dp ip SS vals t nd,
   (length mr < fuel)%nat -> length dr = length mr -> length SS = S (length mr) ->
   length mp = length ip -> length dp = length ip ->
@@ -221,12 +226,9 @@ Proof.
     + cbn [rbind G.Mode_eqb as_dict].
       pose proof Hrd as (Hnd & Hk & He).
       rewrite (py_sorted_keys (map fst d) nd Hnd Hk).
-      cbn [conc]. rewrite !r_getitem_mid. cbn [rbind].
+      cbn [conc].
       destruct (conc_snoc s0 (keys nd)) as (l & x & Eo & Ec).
-      rewrite !r_getitem_2_0. cbn [rbind]. rewrite Eo, r_getitem_last. cbn [rbind].
-      rewrite r_setitem_2_0. cbn [rbind]. rewrite r_setitem_mid. cbn [rbind].
-      rewrite r_getitem_mid. cbn [rbind]. rewrite r_getitem_2_1. cbn [rbind].
-      rewrite r_setitem_2_1. cbn [rbind]. rewrite r_setitem_mid. cbn [rbind].
+      rewrite Eo. header_steps.
       erewrite leaf_loop; [| exact Hrd | intros; cbn; reflexivity].
       cbn [rbind]. rewrite Ec, map_map. reflexivity.
   - destruct dr as [|d2 dr]; [discriminate|]. cbn [length] in *.
@@ -257,12 +259,9 @@ Proof.
     + cbn [rbind G.Mode_eqb as_dict].
       pose proof Hrd as (Hnd & Hk & He).
       rewrite (py_sorted_keys (map fst d) nd Hnd Hk).
-      cbn [conc]. rewrite !r_getitem_mid. cbn [rbind].
+      cbn [conc].
       destruct (conc_snoc s0 (keys nd)) as (l & x & Eo & Ec).
-      rewrite !r_getitem_2_0. cbn [rbind]. rewrite Eo, r_getitem_last. cbn [rbind].
-      rewrite r_setitem_2_0. cbn [rbind]. rewrite r_setitem_mid. cbn [rbind].
-      rewrite r_getitem_mid. cbn [rbind]. rewrite r_getitem_2_1. cbn [rbind].
-      rewrite r_setitem_2_1. cbn [rbind]. rewrite r_setitem_mid. cbn [rbind].
+      rewrite Eo. header_steps.
       rewrite Ec.
       match goal with |- context [ip ++ ?c :: concs (m2 :: mr) SS] =>
         change (ip ++ c :: concs (m2 :: mr) SS) with (ip ++ [c] ++ concs (m2 :: mr) SS) end.
